@@ -3,7 +3,7 @@ From Coq Require Import Permutation.
 From Boltons Require Import Lib.Prelude Model.C17_Model Spec.C17_Spec Check.C17_Check
   Proofs.C17_Dict Proofs.C17_OTO Proofs.C17_M2M Proofs.C17_FD Proofs.C17_RefineOTO
   Proofs.C17_RefineM2M Proofs.C17_RefineFD Proofs.C17_Agree Proofs.C17_Table Proofs.C17_SpecSound Gen.C17_Gen
-  Lib.C17_Py Gen.C17_Src Proofs.C17_SrcEq Proofs.C17_SrcReach Proofs.C17_SrcEqM.
+  Lib.C17_Py Gen.C17_Src Proofs.C17_SrcEq Proofs.C17_SrcReach Proofs.C17_SrcEqM Proofs.C17_SrcEqU.
 
 (* OneToOne: after ANY history of instance creation (pairs, .unique, copies),
    []=, del, pop, popitem, clear, setdefault, update, |=, update-from-instance,
@@ -234,3 +234,18 @@ Theorem C17_src_m2m_methods_are_the_model : forall hops m s, In m (m2m_run hops)
   (forall k nk, srcm_replace x k nk = Ok (VNone, m_replace x k nk)).
 Proof. exact srcm_eq_model_on_reachable4. Qed.
 Print Assumptions C17_src_m2m_methods_are_the_model.
+
+(* (T), source level: OneToOne.update and __ior__ - the isinstance / keys() dispatch
+   on the argument, the validation loops (values of a dict; keys and values of a
+   sequence of pairs or of a converted mapping; values of the keyword arguments)
+   and the final write loop, transcribed from the CURRENT source - are the model's
+   OUpdate / OIor on every reachable instance through either side, for a dict, a
+   non-dict mapping or a re-iterable sequence of pairs plus keyword arguments
+   (dict keys and keyword names hashable, as python guarantees). *)
+Theorem C17_src_update_is_the_model : forall hops o s arg kw, In o (oto_run hops) ->
+  uarg_ok arg -> (forall p, In p kw -> unhashable (fst p) = false) ->
+  let x := oto_side s o in
+  src_update x arg kw = lift_step x (OUpdate (uarg_pairs arg ++ kw)) /\
+  src_ior x arg = lift_step x (OIor (uarg_pairs arg)).
+Proof. exact src_update_eq_model_on_reachable. Qed.
+Print Assumptions C17_src_update_is_the_model.
